@@ -12,6 +12,7 @@ func init() {
 	bm := "internal/tools/bitmask"
 	w2, w3 := map[string]int{"words": 2}, map[string]int{"words": 3}
 	r2, r3 := map[string]int{"runs": 2}, map[string]int{"runs": 3}
+	r21 := map[string]int{"runs": 2, "runsb": 1}
 	registry["C17"] = CheckSpec{Property: "C17",
 		Harnesses: []HarnessSpec{
 			{Pkg: bm, Func: "ZZ_C17_Long_IsSet", Quick: tier(w3), Thorough: tier(map[string]int{"words": 4}), Bounds: "0..words symbolic 64-bit words, fresh 64-bit q"},
@@ -20,7 +21,7 @@ func init() {
 			{Pkg: bm, Func: "ZZ_C17_Long_Observers", Quick: tier(w2), Thorough: tier(w3)},
 			{Pkg: bm, Func: "ZZ_C17_Long_Next", Quick: tier(w2), Thorough: tier(w3)},
 			{Pkg: bm, Func: "ZZ_C17_Long_OnesCount", Quick: tier(w3), Thorough: tier(map[string]int{"words": 4})},
-			{Pkg: bm, Func: "ZZ_C17_OnesCount_Bit", Quick: tier(nil), Bounds: "one word, positions 0,1,31,32,62,63"},
+			{Pkg: bm, Func: "ZZ_C17_OnesCount_Bit", Quick: tier(nil), Bounds: "one word, positions 0 and 63"},
 			{Pkg: bm, Func: "ZZ_C17_Long_Equal", Quick: tier(w2), Thorough: tier(w3)},
 			{Pkg: bm, Func: "ZZ_C17_Long_Inject", Quick: tier(w2), Thorough: tier(w3), Bounds: "Inject(p,v) recursion through all words"},
 			{Pkg: bm, Func: "ZZ_C17_Short_IsSet", Quick: tier(w3), Thorough: tier(map[string]int{"words": 4})},
@@ -32,11 +33,11 @@ func init() {
 			{Pkg: bm, Func: "ZZ_C17_Short_InjectExtract", Quick: tier(w2), Thorough: tier(w3)},
 			{Pkg: bm, Func: "ZZ_C17_Conn_IsSet", Solver: "cvc5", Quick: tier(r3), Thorough: tier(map[string]int{"runs": 4})},
 			{Pkg: bm, Func: "ZZ_C17_Conn_Point", Solver: "cvc5", Quick: tier(r2), Thorough: tier(r3), Bounds: "0..runs valid runs (sorted, disjoint, not touching, < 2^62), Set/Unset/Flip"},
-			{Pkg: bm, Func: "ZZ_C17_Conn_Or", Solver: "cvc5", Quick: tier(r2), Thorough: tier(r3)},
-			{Pkg: bm, Func: "ZZ_C17_Conn_And", Solver: "cvc5", Quick: tier(r2), Thorough: tier(r3)},
-			{Pkg: bm, Func: "ZZ_C17_Conn_Xor", Solver: "cvc5", Quick: tier(r2), Thorough: tier(r3)},
+			{Pkg: bm, Func: "ZZ_C17_Conn_Or", Solver: "cvc5", Quick: tier(r21), Thorough: tier(r2)},
+			{Pkg: bm, Func: "ZZ_C17_Conn_And", Solver: "cvc5", Quick: tier(r21), Thorough: tier(r2)},
+			{Pkg: bm, Func: "ZZ_C17_Conn_Xor", Solver: "cvc5", Quick: tier(r21), Thorough: tier(r2)},
 			{Pkg: bm, Func: "ZZ_C17_Conn_XorThenExtract", Solver: "cvc5", Quick: tier(map[string]int{"runs": 1}), Thorough: tier(r2), Bounds: "two steps: XorCopy then Equal/Extract, observable results only"},
-			{Pkg: bm, Func: "ZZ_C17_Conn_Sub", Solver: "cvc5", Quick: tier(r2), Thorough: tier(r3)},
+			{Pkg: bm, Func: "ZZ_C17_Conn_Sub", Solver: "cvc5", Quick: tier(r21), Thorough: tier(r2)},
 			{Pkg: bm, Func: "ZZ_C17_Conn_EqualCopy", Solver: "cvc5", Quick: tier(r2), Thorough: tier(r3)},
 			{Pkg: bm, Func: "ZZ_C17_Conn_Inject", Solver: "cvc5", Quick: tier(r2), Thorough: tier(r3)},
 			{Pkg: bm, Func: "ZZ_C17_Conn_Extract", Solver: "cvc5", Quick: tier(r2), Thorough: tier(r3)},
@@ -64,5 +65,39 @@ func init() {
 			"multi-value returns are evaluated in gc's order (calls first, variable reads last), see engine getLate",
 		},
 		Outside: []string{"strings longer than maxlen", "expressions outside the enumerated grammar", "counted repetition above 3", "runes above 0xFF"},
+	}
+
+	qp := "internal/query"
+	registry["C03"] = CheckSpec{Property: "C03",
+		Harnesses: []HarnessSpec{
+			{Pkg: qp, Func: "ZZ_C03_Data", Quick: tier(map[string]int{"events": 3}), Thorough: tier(map[string]int{"events": 4}),
+				Bounds: "20 expression shapes (NOT/AND/OR/THEN, depth<=3) over data/tag leaves; payload of `events` symbolic (direction, byte) events; tag truth values symbolic"},
+			{Pkg: qp, Func: "ZZ_C03_Number", Solver: "cvc5", Quick: tier(map[string]int{"numfams": 1, "numshapes": 8}), Thorough: tier(map[string]int{"numfams": 2, "numshapes": 8}),
+				Bounds: "shapes over id/port/bytes leaves (single, range, open ranges, list) with symbolic 20-bit literals; stream attributes symbolic"},
+			{Pkg: qp, Func: "ZZ_C03_Mixed", Solver: "cvc5", Quick: tier(map[string]int{"mixfams": 6, "mixshapes": 6, "events": 2, "numforms": 2, "hostkeys": 1, "hostmasks": 2, "timeforms": 1}), Thorough: tier(map[string]int{"mixfams": 9, "mixshapes": 8, "events": 2, "numforms": 3, "hostkeys": 3, "hostmasks": 3}),
+				Bounds: "one leaf of each kind (number, tag, data, host/mask, ftime/ltime/time with relative durations) against each other"},
+			{Pkg: qp, Func: "ZZ_C03_Proto", Solver: "cvc5", Quick: tier(map[string]int{"protoshapes": 4}), Thorough: tier(map[string]int{"protoshapes": 8})},
+		},
+		Assumptions: []string{
+			"grammar stage (participle) replaced by directly constructed parse trees; natively the real value parsers parse the rendered text of the same instance",
+			"evalAST: documented meaning of each filter (README / Home.vue help): lists = OR, ranges = two bounds, port/bytes/host = client or server, time:L:U = some packet in range, THEN = AND with sequential data matching (cursor-set semantics)",
+			"evalCS: each condition kind by the comment that defines it in conditions.go",
+			"data atoms are distinct single-byte literals; every payload event is its own chunk",
+		},
+		Outside: []string{"sub-query variables", "regular expressions other than literals (C04/C18)", "absolute timestamps", "sort/limit/group terms", "expressions deeper than the listed shapes"},
+	}
+
+	registry["C14"] = CheckSpec{Property: "C14",
+		Harnesses: []HarnessSpec{
+			{Pkg: qp, Func: "ZZ_C14_Arith", Isolate: true, Quick: tier(map[string]int{"arithparts": 3, "loopbound": 400}), Thorough: tier(map[string]int{"arithparts": 4, "loopbound": 400}),
+				Desc: "no-panic / termination", Bounds: "number filters whose value is a sum of 1..arithparts signed parts (literal, own variable, variables of sub-queries a and b); loop bound 400 per loop header = unwinding assertion (derived: common-factor loop <= #summands passes, decrement <= |factor| <= 4)"},
+			{Pkg: qp, Func: "ZZ_C14_Odd", Isolate: true, Quick: tier(map[string]int{"numforms": 2}), Thorough: tier(map[string]int{"numforms": 5}),
+				Desc: "no-panic / termination", Bounds: "8 shapes over odd-but-well-formed leaves (empty range sides, duplicates, wrong variable kinds, /0 masks, converter on non-data key, empty list entries)"},
+			{Pkg: qp, Func: "ZZ_C14_Deterministic", Quick: tier(map[string]int{"detshapes": 6}), Thorough: tier(map[string]int{"detshapes": 8}),
+				Bounds: "shapes over tag leaves of the main query and sub-queries a,b, id lists, data atoms; iteration order of every map with <= 3 entries is a symbolic choice"},
+		},
+		Assumptions: []string{"grammar stage (participle lexers/parsers: reflection + regex lexers) is not encodable: the claim starts at the parse tree; 'for every byte string' is NOT claimed",
+			"a path that exceeds the loop bound is replayed natively under a watchdog and reported only if the native run does not return"},
+		Outside: []string{"lexing and grammar", "promptness as wall-clock time", "value lists longer than 3"},
 	}
 }
